@@ -45,6 +45,8 @@ type AssertBefore struct {
 	Anchor     string
 	Clause     *Clause
 	Havoc      bool   // havoc_after: the clause is a modifies-style target; the location becomes arbitrary after the anchor (interference by other goroutines at a lock acquisition; constrained by following assume_after clauses)
+	Apply      string    // apply_after: name of a lemma of this package applied to the argument expressions ApplyArgs
+	ApplyArgs  []*Clause // (its requires are proved here, its ensures assumed on the rest of the path)
 	LetName    string // let_after: binds a specification-only local (name, type) to the clause's value after the anchor
 	LetType    string
 }
@@ -118,7 +120,7 @@ var clauseKeywords = map[string]bool{
 	"func": true, "trusted": true, "pure": true, "inline": true, "ignore": true, "spec": true, "lemma": true, "import": true,
 	"requires": true, "requires_inv": true, "ensures": true, "modifies": true, "loop": true, "arith": true, "overflow": true, "allow_panic": true,
 	"theory": true, "untrusted_input": true, "pragma": true, "assert": true, "note": true, "tparams": true, "ghost": true, "decl": true, "atcall": true, "ignorepkg": true, "trusted_ensures": true,
-	"guarded_by": true, "requires_held": true, "holds_during": true, "lock_order": true, "unshared": true, "lock_alias": true, "assert_before": true, "assert_after": true, "hint_after": true, "hint_before": true, "assume_after": true, "closure_requires": true, "let_after": true, "use_lemma": true, "havoc_after": true,
+	"guarded_by": true, "requires_held": true, "holds_during": true, "lock_order": true, "unshared": true, "lock_alias": true, "assert_before": true, "assert_after": true, "hint_after": true, "hint_before": true, "assume_after": true, "closure_requires": true, "let_after": true, "use_lemma": true, "havoc_after": true, "apply_after": true,
 }
 
 type rawClause struct {
@@ -426,6 +428,26 @@ func loadContracts(dir, pkgPath string) (*PkgContracts, error) {
 				cur.AssertsBefore = append(cur.AssertsBefore, &AssertBefore{After: c.kw != "assert_before" && c.kw != "hint_before", Hint: c.kw == "hint_after" || c.kw == "hint_before", Assume: c.kw == "assume_after", Havoc: c.kw == "havoc_after", Anchor: t[1 : 1+k], Clause: &Clause{Text: strings.TrimSpace(t[2+k:]), Line: c.line}})
 			case "use_lemma":
 				cur.UseLemmas = append(cur.UseLemmas, strings.Fields(c.text)...)
+			case "apply_after":
+				// apply_after "<anchor>" lemma(arg, ...): lemma application at a program point
+				t := strings.TrimSpace(c.text)
+				k := -1
+				if strings.HasPrefix(t, "\"") {
+					k = strings.Index(t[1:], "\"")
+				}
+				rest := ""
+				if k >= 0 {
+					rest = strings.TrimSpace(t[2+k:])
+				}
+				op := strings.Index(rest, "(")
+				if k < 0 || op <= 0 || !strings.HasSuffix(rest, ")") {
+					return nil, fmt.Errorf("%s:%d: apply_after \"anchor\" lemma(args)", path, c.line)
+				}
+				ab := &AssertBefore{After: true, Anchor: t[1 : 1+k], Apply: strings.TrimSpace(rest[:op]), Clause: &Clause{Text: rest, Line: c.line}}
+				for _, a := range splitTop(rest[op+1 : len(rest)-1]) {
+					ab.ApplyArgs = append(ab.ApplyArgs, &Clause{Text: strings.TrimSpace(a), Line: c.line})
+				}
+				cur.AssertsBefore = append(cur.AssertsBefore, ab)
 			case "let_after":
 				// let_after "<anchor>" name type = <expr>: a specification-only local, bound once after the
 				// anchor statement and visible to later loop invariants and anchored assertions
@@ -749,6 +771,18 @@ func (pc *PkgContracts) genSpecFileX(imports []string, locals func(fs *FuncSpec,
 						lv = append(lv, Param{next.LetName, next.LetType})
 					}
 				}
+			}
+			if ab.Apply != "" {
+				lsp := pc.ByKey[pc.PkgPath+".lemma."+ab.Apply]
+				if lsp == nil || len(lsp.Params) != len(ab.ApplyArgs) {
+					return "", fmt.Errorf("%s:%d: apply_after: no lemma %s with %d parameters in this package", pc.Dir, ab.Clause.Line, ab.Apply, len(ab.ApplyArgs))
+				}
+				for k, ac := range ab.ApplyArgs {
+					if err := emit(fmt.Sprintf("__apply_%s_%d_%d", base, i, k), fs.TParams, lv, lsp.Params[k].Type, ac); err != nil {
+						return "", err
+					}
+				}
+				continue
 			}
 			if err := emit(fmt.Sprintf("__assert_%s_%d", base, i), fs.TParams, lv, ret, ab.Clause); err != nil {
 				return "", err
